@@ -176,11 +176,22 @@ def append_only_from_sink(prog, res):
             if any(c.get("fn") == "storage_append" for c in ir.calls_in(s)):
                 callers.add(f.name)
     inst = "storage_append is called only from the sink worker"
-    if callers == {"video_sink_thread"}:
+
+    def only_from_worker(name, seen=()):
+        """name is the worker, or a helper all of whose callers are"""
+        if name == "video_sink_thread":
+            return True
+        if name in seen:
+            return False
+        who = {g.name for g in prog.all_funcs() for b, i, s in g.all_stmts()
+               if any(c.get("fn") == name for c in ir.calls_in(s))}
+        return bool(who) and all(only_from_worker(w, seen + (name,)) for w in who)
+    outside = {c for c in callers if not only_from_worker(c)}
+    if callers and not outside:
         res.oblige("R-APPEND-SCOPE", inst, True, "callers: %s" % sorted(callers), "sink.c")
     else:
         res.fail("R-APPEND-SCOPE", inst, "R-APPEND-SCOPE|callers", "",
-                 "storage_append is also called from %s: data can reach a storage device outside its start..stop window" % sorted(callers - {"video_sink_thread"}))
+                 "storage_append is also called from %s: data can reach a storage device outside its start..stop window" % sorted(outside))
     f = prog.func("video_sink_start")
     tcs = {(b.id, i) for b, i, s in f.all_stmts() if any(c.get("fn") == "thread_create" for c in ir.calls_in(s))}
     ok, w = paths.all_paths_pass(f, "entry", tcs, lambda s: any(c.get("fn") == "storage_start" for c in ir.calls_in(s)))
